@@ -140,7 +140,7 @@ type variant struct {
 	keys     []*keyCfg
 	sub      *submission
 	honest   func(w *world, kc *keyCfg) *jn
-	call     func(ctx context.Context, lc *client.LogClient, tlc *client.TemporalLogClient) (any, error)
+	call     func(ctx context.Context, lc *client.LogClient, tlc *client.TemporalLogClient, sub *submission) (any, error)
 }
 
 const (
@@ -167,14 +167,14 @@ func variants(w *world) []*variant {
 	}
 	add := func(name string, s *submission, keys []*keyCfg, temporal bool) *variant {
 		return &variant{name: name, ep: "add-chain", post: true, signed: true, temporal: temporal, keys: keys, sub: s, honest: honestSCT(s),
-			call: func(ctx context.Context, lc *client.LogClient, tlc *client.TemporalLogClient) (any, error) {
-				ch := asn1Chain(s.chain)
+			call: func(ctx context.Context, lc *client.LogClient, tlc *client.TemporalLogClient, sub *submission) (any, error) {
+				ch := asn1Chain(sub.chain)
 				switch {
-				case temporal && s.pre:
+				case temporal && sub.pre:
 					return tlc.AddPreChain(ctx, ch)
 				case temporal:
 					return tlc.AddChain(ctx, ch)
-				case s.pre:
+				case sub.pre:
 					return lc.AddPreChain(ctx, ch)
 				}
 				return lc.AddChain(ctx, ch)
@@ -186,7 +186,7 @@ func variants(w *world) []*variant {
 				c := w.sthContents()[0]
 				return sthBody(c, honestDS(kc.k, hSHA256, sthInput(c)))
 			},
-			call: func(ctx context.Context, lc *client.LogClient, _ *client.TemporalLogClient) (any, error) { return lc.GetSTH(ctx) }},
+			call: func(ctx context.Context, lc *client.LogClient, _ *client.TemporalLogClient, _ *submission) (any, error) { return lc.GetSTH(ctx) }},
 		add("AddChain", w.subX509, both, false),
 		add("AddPreChain", w.subPre, both, false),
 		add("AddPreChain[via precert signing cert]", w.subPreIssuer, both, false),
@@ -196,32 +196,32 @@ func variants(w *world) []*variant {
 		add("Temporal.AddPreChain[shard1]", w.subPre, []*keyCfg{kShard1}, true),
 		{name: "GetSTHConsistency", ep: "get-sth-consistency", keys: one,
 			honest: func(w *world, _ *keyCfg) *jn { return jobj("consistency", jb64s(w.consist)) },
-			call: func(ctx context.Context, lc *client.LogClient, _ *client.TemporalLogClient) (any, error) {
+			call: func(ctx context.Context, lc *client.LogClient, _ *client.TemporalLogClient, _ *submission) (any, error) {
 				return lc.GetSTHConsistency(ctx, 3, 7)
 			}},
 		{name: "GetProofByHash", ep: "get-proof-by-hash", keys: one,
 			honest: func(w *world, _ *keyCfg) *jn { return jobj("leaf_index", jnum(3), "audit_path", jb64s(w.audit)) },
-			call: func(ctx context.Context, lc *client.LogClient, _ *client.TemporalLogClient) (any, error) {
+			call: func(ctx context.Context, lc *client.LogClient, _ *client.TemporalLogClient, _ *submission) (any, error) {
 				return lc.GetProofByHash(ctx, w.leafHash[3], 7)
 			}},
 		{name: "GetRawEntries", ep: "get-entries", keys: one, honest: honestEntries,
-			call: func(ctx context.Context, lc *client.LogClient, _ *client.TemporalLogClient) (any, error) {
+			call: func(ctx context.Context, lc *client.LogClient, _ *client.TemporalLogClient, _ *submission) (any, error) {
 				return lc.GetRawEntries(ctx, entStart, entEnd)
 			}},
 		{name: "GetEntries", ep: "get-entries", keys: one, honest: honestEntries,
-			call: func(ctx context.Context, lc *client.LogClient, _ *client.TemporalLogClient) (any, error) {
+			call: func(ctx context.Context, lc *client.LogClient, _ *client.TemporalLogClient, _ *submission) (any, error) {
 				return lc.GetEntries(ctx, entStart, entEnd)
 			}},
 		{name: "GetEntryAndProof", ep: "get-entry-and-proof", keys: one,
 			honest: func(w *world, _ *keyCfg) *jn {
 				return jobj("leaf_input", jb64(w.entries[0].leaf), "extra_data", jb64(w.entries[0].extra), "audit_path", jb64s(w.audit))
 			},
-			call: func(ctx context.Context, lc *client.LogClient, _ *client.TemporalLogClient) (any, error) {
+			call: func(ctx context.Context, lc *client.LogClient, _ *client.TemporalLogClient, _ *submission) (any, error) {
 				return lc.GetEntryAndProof(ctx, 3, 7)
 			}},
 		{name: "GetAcceptedRoots", ep: "get-roots", keys: one,
 			honest: func(w *world, _ *keyCfg) *jn { return jobj("certificates", jb64s(w.roots)) },
-			call: func(ctx context.Context, lc *client.LogClient, _ *client.TemporalLogClient) (any, error) {
+			call: func(ctx context.Context, lc *client.LogClient, _ *client.TemporalLogClient, _ *submission) (any, error) {
 				return lc.GetAcceptedRoots(ctx)
 			}},
 	}
@@ -543,30 +543,89 @@ func (c *checker) newClients(v *variant, kc *keyCfg, rt http.RoundTripper) (*cli
 	return lc, nil, err
 }
 
+// sstep is one call of a session: several calls on the SAME client instance.
+// sub / kc override the variant's submission and the key the answer is judged
+// under (temporal client: the other shard).
+type sstep struct {
+	hc  *hcase
+	sub *submission
+	kc  *keyCfg
+}
+
+type switchRT struct{ cur *scriptedRT }
+
+func (s *switchRT) RoundTrip(req *http.Request) (*http.Response, error) { return s.cur.RoundTrip(req) }
+
+type callResult struct {
+	rt      *scriptedRT
+	res     any
+	err     error
+	pan     bool
+	pmsg    string
+	pstack  string
+	elapsed time.Duration
+}
+
 func (c *checker) run(v *variant, kc *keyCfg, hcs *hcase) {
-	c.r.Eval(1)
-	sc := hcs.sc
-	rt := &scriptedRT{sc: &sc}
-	var res any
-	var err error
-	var pan bool
-	var pmsg, pstack string
-	var elapsed time.Duration
+	c.runSeq(v, kc, []sstep{{hc: hcs}}, "")
+}
+
+// runSeq makes the calls of a session one after the other on one client, in one
+// bubble, and judges every call by the single-call oracle.
+func (c *checker) runSeq(v *variant, kc *keyCfg, steps []sstep, session string) {
+	sw := &switchRT{}
+	out := make([]callResult, len(steps))
 	var cerr error
 	synctest.Test(c.t, func(t *testing.T) {
-		lc, tlc, e := c.newClients(v, kc, rt)
+		lc, tlc, e := c.newClients(v, kc, sw)
 		if e != nil {
 			cerr = e
 			return
 		}
-		ctx, cancel := context.WithTimeout(context.Background(), callTimeout)
-		defer cancel()
-		start := time.Now()
-		pan, pmsg, pstack = enum.Catch(func() { res, err = v.call(ctx, lc, tlc) })
-		elapsed = time.Since(start)
+		for i := range steps {
+			sc := steps[i].hc.sc
+			o := &out[i]
+			o.rt = &scriptedRT{sc: &sc}
+			sw.cur = o.rt
+			sub := v.sub
+			if steps[i].sub != nil {
+				sub = steps[i].sub
+			}
+			ctx, cancel := context.WithTimeout(context.Background(), callTimeout)
+			start := time.Now()
+			o.pan, o.pmsg, o.pstack = enum.Catch(func() { o.res, o.err = v.call(ctx, lc, tlc, sub) })
+			o.elapsed = time.Since(start)
+			cancel()
+		}
 	})
-	pred := predict(v.post, v.ep, &sc, rt.n, err == nil && !pan)
-	cd := caseDesc{Method: v.name, Key: kc.name, Case: hcs.label, Script: showScript(&sc)}
+	if cerr != nil {
+		c.r.Violation("harness: client construction failed", cerr.Error(), v.name)
+		return
+	}
+	for i := range steps {
+		vv, k := v, kc
+		if steps[i].sub != nil {
+			cp := *v
+			cp.sub = steps[i].sub
+			vv = &cp
+		}
+		if steps[i].kc != nil {
+			k = steps[i].kc
+		}
+		label := steps[i].hc.label
+		if session != "" {
+			label = fmt.Sprintf("%s call %d of %d: %s", session, i+1, len(steps), label)
+		}
+		c.judgeCall(vv, k, steps[i].hc, label, &out[i], session != "")
+	}
+}
+
+func (c *checker) judgeCall(v *variant, kc *keyCfg, hcs *hcase, label string, o *callResult, inSession bool) {
+	c.r.Eval(1)
+	rt, res, err := o.rt, o.res, o.err
+	sc := *rt.sc
+	pred := predict(v.post, v.ep, &sc, rt.n, err == nil && !o.pan)
+	cd := caseDesc{Method: v.name, Key: kc.name, Case: label, Script: showScript(&sc)}
 	if pred.kind == pOK200 || pred.kind == pRspError {
 		cd.Body = clip(string(pred.body))
 	}
@@ -576,21 +635,20 @@ func (c *checker) run(v *variant, kc *keyCfg, hcs *hcase) {
 			cd.Got += fmt.Sprintf(" (%T)", err)
 		}
 		cd.Body = ascii(cd.Body)
-		c.r.Violation(sig, ascii(fmt.Sprintf("%s, client key %s, case %q, server %s: ", v.name, kc.name, hcs.label, showScript(&sc))+fmt.Sprintf(format, a...)), cd)
+		if inSession {
+			sig += " (in a session of several calls on one client)"
+		}
+		c.r.Violation(sig, ascii(fmt.Sprintf("%s, client key %s, case %q, server %s: ", v.name, kc.name, label, showScript(&sc))+fmt.Sprintf(format, a...)), cd)
 	}
-	if cerr != nil {
-		viol("harness: client construction failed", "%v", cerr)
-		return
-	}
-	if pan {
-		viol("panic in "+famOf(v), "panic: %s\n%s", pmsg, pstack)
+	if o.pan {
+		viol("panic in "+famOf(v), "panic: %s\n%s", o.pmsg, o.pstack)
 		return
 	}
 	if v.post {
 		c.checkRequests(v, kc, rt, viol)
 	}
-	if elapsed > callTimeout {
-		viol("call returns after the context deadline "+famOf(v), "returned %v after the call, deadline %v", elapsed, callTimeout)
+	if o.elapsed > callTimeout {
+		viol("call returns after the context deadline "+famOf(v), "returned %v after the call, deadline %v", o.elapsed, callTimeout)
 	}
 	outcome := "error"
 	if err == nil {
@@ -630,12 +688,17 @@ func (c *checker) run(v *variant, kc *keyCfg, hcs *hcase) {
 			outcome = "deadline"
 		}
 	}
+	name := v.name
+	if inSession {
+		name += " (session)"
+		c.r.Add("session_calls", 1)
+	}
 	c.mu.Lock()
-	c.outcomes[v.name+" => "+outcome]++
+	c.outcomes[name+" => "+outcome]++
 	c.mu.Unlock()
-	c.r.Nontrivial(v.name + "|" + kc.name + "|" + hcs.label + "|" + showScript(&sc) + "|" + outcome)
+	c.r.Nontrivial(v.name + "|" + kc.name + "|" + label + "|" + showScript(&sc) + "|" + outcome)
 	if outcome == "accepted" && !hcs.benign && c.r.WantSample() && strings.Contains(hcs.label, "sha384") {
-		c.r.Sample(map[string]any{"method": v.name, "key": kc.name, "case": hcs.label, "server": showScript(&sc), "outcome": "accepted; verified by std crypto with the declared hash"})
+		c.r.Sample(map[string]any{"method": v.name, "key": kc.name, "case": label, "server": showScript(&sc), "outcome": "accepted; verified by std crypto with the declared hash"})
 	}
 }
 
@@ -945,15 +1008,96 @@ func (c *checker) judgeSuccess(v *variant, kc *keyCfg, hcs *hcase, pred predicti
 
 var otherStatuses = []int{204, 400, 404, 408, 429, 500, 503}
 
-func (c *checker) cases(v *variant, kc *keyCfg) []hcase {
-	th := c.r.Thorough()
-	root := v.honest(c.w, kc)
-	honest := root.String()
-	var bodies []bodyCase
+func (c *checker) bodies(v *variant, kc *keyCfg) (root *jn, honest string, bodies []bodyCase) {
+	root = v.honest(c.w, kc)
+	honest = root.String()
 	bodies = append(bodies, bodyCase{label: "honest", body: honest, benign: true})
-	bodies = append(bodies, semanticBodies(c.w, v, kc, th)...)
+	bodies = append(bodies, semanticBodies(c.w, v, kc, c.r.Thorough())...)
 	bodies = append(bodies, singleMutations(root)...)
 	bodies = append(bodies, textMutations(honest, root)...)
+	return
+}
+
+// deviations counts the dimensions in which a signed-content label differs from
+// the honest response (-1: not such a label).
+func deviations(label string) int {
+	if !strings.HasPrefix(label, "sct:") && !strings.HasPrefix(label, "sth:") {
+		return -1
+	}
+	n := 0
+	for _, t := range strings.Fields(label) {
+		switch t {
+		case "sct:honest", "sth:honest", "entry:submitted", "id:configured-key", "sig:good":
+		default:
+			n++
+		}
+	}
+	return n
+}
+
+type session struct {
+	label string
+	steps []sstep
+}
+
+// sessions: several calls on ONE client instance. Whatever a client remembers
+// between calls (a verified signature, a verified id, a body or URL it has seen,
+// back-off state) must not let a later answer through unverified: every call is
+// judged by the single-call oracle. For each chosen body X: [honest, X, honest]
+// and [X, honest, X]; for the add methods also an honest SCT replayed for another
+// submission (temporal: for a certificate of the other shard).
+func (c *checker) sessions(v *variant, kc *keyCfg) []session {
+	th := c.r.Thorough()
+	_, honest, bodies := c.bodies(v, kc)
+	var out []session
+	hc := func(b bodyCase) *hcase { return &hcase{label: b.label, sc: script{then: ok200(b.body)}, benign: b.benign} }
+	H := hc(bodyCase{label: "honest", body: honest, benign: true})
+	for _, b := range bodies[1:] {
+		pick := th
+		if !th {
+			if v.signed {
+				d := deviations(b.label)
+				pick = d == 1 || (d > 1 && strings.Contains(b.label, "after-signing")) || strings.Contains(b.label, "zero-root-served") || strings.Contains(b.label, "signature-of-an")
+			} else {
+				pick = strings.HasSuffix(b.label, ":absent") || strings.HasSuffix(b.label, ":bytes:flip-last") || b.label == "html" || b.label == "json-empty-object" || strings.HasPrefix(b.label, "entries:")
+			}
+		}
+		if !pick {
+			continue
+		}
+		X := hc(b)
+		out = append(out, session{label: "session[honest, X, honest]", steps: []sstep{{hc: H}, {hc: X}, {hc: H}}},
+			session{label: "session[X, honest, X]", steps: []sstep{{hc: X}, {hc: H}, {hc: X}}})
+	}
+	if v.ep == "add-chain" {
+		w := c.w
+		other, okc := map[*submission]*submission{w.subX509: w.subX509Old, w.subPre: w.subPreOld, w.subPreIssuer: w.subPre,
+			w.subX509Old: w.subX509, w.subPreOld: w.subPre}[v.sub], kc
+		if v.temporal {
+			// the other submission belongs to the other shard of the same client
+			if kc == kShard0 {
+				okc = kShard1
+			} else {
+				okc = kShard0
+			}
+		}
+		c0 := w.sctContents()[0]
+		// the honest SCT of the variant's submission replayed for the other submission
+		replay := &hcase{label: "honest SCT of the previous submission replayed for another chain", sc: script{then: ok200(honest)}}
+		// the other submission's own honest SCT (under the key that owns it)
+		oh := &hcase{label: "honest (other submission)", benign: true,
+			sc: script{then: ok200(sctBody(okc.id(), c0, honestDS(okc.k, hSHA256, sctInput(c0, other.entry))).String())}}
+		out = append(out,
+			session{label: "session[honest A, A's SCT for B, honest B, B's SCT for A]", steps: []sstep{{hc: H}, {hc: replay, sub: other, kc: okc}, {hc: oh, sub: other, kc: okc},
+				{hc: &hcase{label: "honest SCT of the other submission replayed", sc: oh.sc}}}},
+			session{label: "session[A's SCT for B, honest A, honest B, honest A]", steps: []sstep{{hc: replay, sub: other, kc: okc}, {hc: H}, {hc: oh, sub: other, kc: okc}, {hc: H}}})
+	}
+	return out
+}
+
+func (c *checker) cases(v *variant, kc *keyCfg) []hcase {
+	th := c.r.Thorough()
+	root, honest, bodies := c.bodies(v, kc)
 	var out []hcase
 	// A. 200 x every body
 	for _, b := range bodies {
@@ -1056,6 +1200,7 @@ func TestCheck(t *testing.T) {
 	r.Rule("for each of 14 method variants (GetSTH, AddChain, AddPreChain incl. a precert-signing-cert chain, TemporalLogClient.AddChain/AddPreChain per shard, GetSTHConsistency, GetProofByHash, GetRawEntries, GetEntries, GetEntryAndProof, GetAcceptedRoots) and each configured key (P-256 and RSA-2048 for the signed endpoints): " +
 		"server behaviour = {200} x {honest body; every (content variant x entry signed x id x signature mode) of the signed responses; every one-node mutation (absent, null, 8 wrong JSON types, base64 garbage x5, byte length -1/+1, bit flips, numeric boundaries, duplicated element); truncation after and inside every JSON token; 17 whole-body replacements; 4 benign rewritings} " +
 		"+ {204,400,404,408,429,500,503, 301 without Location} x bodies + 301->GET redirects + transport error + body read error at cut points + {408,429,503,transport error,read error} followed by a 200 + (add methods) an unparsable 200 with field f mistyped followed by a 200 lacking field g (thorough: all pairs of one-node mutations at independent sites, every status x every body, read error at every token, retry-then-every-body). " +
+		"Sessions of 3-4 calls on ONE client instance, every call judged by the single-call oracle: for each signed-content variation X one dimension away from honest, every field changed after signing (same signature bytes) and, for the unsigned methods, a few mutated bodies (thorough: every body): [honest, X, honest] and [X, honest, X]; for the add methods an honest SCT replayed for another submission (temporal: for a certificate of the other shard) interleaved with honest answers. " +
 		"Then ct.RawLogEntryFromLeaf / ct.LogEntryFromLeaf on honest x509 and precert leaf_input/extra_data x (every prefix, trailing 00/ff, every length field -1/+1/0/max, every enum field x 8 codes, uint64 max), crossed families, and all pairs of strings <=3 bytes over {00,01,02,ff} (thorough: every leaf_input mutation x every extra_data mutation). distinct_nontrivial = distinct (method, key, case, script, outcome class)")
 	r.Assume("trusted base: Go std crypto (ecdsa, rsa, sha*), encoding/json as tokenizer for the reference decoder, net/http.Client redirect handling, testing/synctest virtual time",
 		"an absent or null JSON member denotes the zero value, and a byte string may be written as a JSON array of integers 0..255 (what encoding/json documents): such responses are not 'malformed'; whatever is returned must still equal the served value and, for STH/SCT, verify",
@@ -1065,11 +1210,12 @@ func TestCheck(t *testing.T) {
 		"(C13, given) the add methods retry after an unparsable / mistyped 200 body: such a 200 is a retry class like 408/429/503 (the call may go on, may end with the bare context error, or may refuse it at once with RspError{200, body}); the non-retrying GET methods must still answer it with RspError{200, body}",
 		"an SCT returned after several different 200 bodies reached the client (fields of an earlier unparsable 200 survive the retry) is judged by its own fields only: verifies for the submitted chain and entry type, LogID == SHA-256(SPKI), last answer a 200; such cases are counted (scts_assembled_from_two_200_bodies_verified_by_own_fields), not alarmed. When a single 200 body was served the returned SCT must also be that response",
 		"an absent, null or empty id in an add-chain response is the zero value like every other absent member: the statement constrains the returned SCT, whose LogID must be SHA-256 of the configured key (counted: scts_without_id_attributed_to_the_configured_log); a non-empty id must be that hash",
+		"cross-call client state is exercised only through sessions of at most 4 calls of one method variant on one client instance (a remembered signature, id, body, URL or verdict from an earlier call of the SAME method); state shared between different methods of one client is not enumerated",
 		"(C05, given) bytes trailing a complete DER ECDSA-Sig-Value inside the signature opaque are ignored: the reference verifier reads the SEQUENCE length itself and verifies exactly those bytes with ecdsa.VerifyASN1",
 		"rejection of trailing bytes after a complete JSON document is not demanded")
 	c := &checker{r: r, w: newWorld(), t: t, accepted: map[string]int{}, outcomes: map[string]int{}}
 	vs := variants(c.w)
-	total := 0
+	total, nSessions := 0, 0
 	perVariant := map[string]int{}
 	for _, v := range vs {
 		for _, kc := range v.keys {
@@ -1089,8 +1235,20 @@ func TestCheck(t *testing.T) {
 			if !done {
 				r.Capped("deadline reached in " + v.name)
 			}
+			ss := c.sessions(v, kc)
+			nSessions += len(ss)
+			done = enum.ParFor(len(ss), r.Expired, func(i int) {
+				pan, msg, stack := enum.Catch(func() { c.runSeq(v, kc, ss[i].steps, ss[i].label) })
+				if pan {
+					r.Violation("harness-panic", msg+"\n"+stack, ss[i].label)
+				}
+			})
+			if !done {
+				r.Capped("deadline reached in the sessions of " + v.name)
+			}
 		}
 	}
+	r.Set("sessions", nSessions)
 	r.Set("client_cases", total)
 	r.Set("client_cases_per_variant", perVariant)
 	r.Set("accepted_responses_per_method", c.accepted)
